@@ -9,7 +9,8 @@ Grammar of an SGR (1006) mouse report as a byte string, written from "XTerm Cont
 
 xterm always sends at least one digit per field.  tcell's parser reads an empty field as 0 and accepts a lone `-`
 (tscreen.go:1430-1460, unchanged by fixes/C02-sgr-strict.patch), so the grammar used for "every consumed byte is a
-report byte in report position" admits empty digit strings; `isSgrReportStrictDigits` is the variant with `digit+`.
+report byte in report position" admits empty digit strings (a grammar with `digit+` would be refuted by
+`ESC [ < ; ; M`, which both variants of the parser decode as button 0 at column/row 0).
 The predicate is a left-to-right recogniser of the regular expression above and shares nothing with the model of the
 parser (no state numbers, no accumulators).  Core Lean only.
 -/
@@ -67,30 +68,8 @@ example : isSgrReport [27, 91, 60, 48, 58, 53, 59, 53, 77] = false := by decide 
 example : isSgrReport [27, 91, 60, 60, 48, 59, 53, 59, 53, 77] = false := by decide     -- second '<'
 example : isSgrReport [27, 91, 60, 48, 59, 53, 77] = false := by decide                 -- two fields only
 example : isSgrReport [27, 91, 60, 48, 59, 53, 59, 53, 59, 53, 77] = false := by decide -- four fields
-
-/-! the same with at least one digit per field (what xterm sends) -/
-
-def digits1 (k : Bytes → Bool) (r : Bytes) : Bool :=
-  match dropSign r with
-  | d :: r' => isDigitB d && k ((d :: r').dropWhile isDigitB)
-  | [] => false
-
-def isSgrReportStrictDigits (b : Bytes) : Bool :=
-  let body (r : Bytes) : Bool :=
-    match r with
-    | 60 :: r =>
-      digits1 (fun r => match r with
-        | 59 :: r => digits1 (fun r => match r with
-          | 59 :: r => digits1 (fun r => match r with | [f] => f == 77 || f == 109 | _ => false) r
-          | _ => false) r
-        | _ => false) r
-    | _ => false
-  match b with
-  | 27 :: 91 :: r => body r
-  | 0x9b :: r => body r
-  | _ => false
-
-example : isSgrReportStrictDigits [27, 91, 60, 48, 59, 45, 53, 59, 53, 77] = true := by decide
-example : isSgrReportStrictDigits [27, 91, 60, 59, 59, 77] = false ∧ isSgrReport [27, 91, 60, 59, 59, 77] = true := by decide
+example : isSgrReport [27, 91, 60, 59, 59, 77] = true := by decide                      -- empty fields (read as 0)
+example : isSgrReport [27, 91, 60, 45, 45, 49, 59, 53, 59, 53, 77] = false := by decide -- two signs
+example : isSgrReport [27, 91, 60, 49, 45, 59, 53, 59, 53, 77] = false := by decide     -- sign after a digit
 
 end Tcell.Spec.SgrGrammar
